@@ -130,6 +130,11 @@ def order_of(d, k):
     return list(d).index(k)
 
 
+def pos_in(d, k):
+    """Position of key k in the iteration order of dict d."""
+    return list(d).index(k)
+
+
 def key_at(d, i):
     return list(d)[i]
 
@@ -183,6 +188,52 @@ def is_list(x):
     return isinstance(x, list)
 
 
+def is_str_value(x):
+    return type(x) == str
+
+
+def iterable(x):
+    try:
+        iter(x)
+        return True
+    except TypeError:
+        return False
+
+
+def items_of(x):
+    return list(x)
+
+
+def rec_has(d, k):
+    return k in d
+
+
+def rec_get(d, k):
+    return d[k]
+
+
+def agg_min(xs):
+    return min(xs)
+
+
+def agg_max(xs):
+    return max(xs)
+
+
+def agg_mean(xs):
+    import statistics
+    return statistics.mean(xs)
+
+
+def agg_sum(xs):
+    return sum(xs)
+
+
+def agg_variance(xs):
+    import statistics
+    return statistics.variance(xs)
+
+
 def same_obj(x, y):
     """x and y are the same container object, where y may be a snapshot copy carrying its origin's identity."""
     return getattr(x, 'orig_id__', id(x)) == getattr(y, 'orig_id__', id(y))
@@ -190,7 +241,10 @@ def same_obj(x, y):
 
 def same(a, b):
     """Identity for objects, equality for immutable scalars."""
-    return a is b or (type(a) in (int, str, float, bool, tuple) and type(a) is type(b) and a == b)
+    if a is b or (type(a) in (int, str, float, bool, tuple) and type(a) is type(b) and a == b):
+        return True
+    ia, ib = getattr(a, 'orig_id__', None), getattr(b, 'orig_id__', None)
+    return (ia is not None or ib is not None) and (ia if ia is not None else id(a)) == (ib if ib is not None else id(b))
 
 
 def is_none(x):
@@ -225,6 +279,8 @@ class Old:
         a[0].ids__ = set()
 
 
-NATIVE_HELPERS = dict(implies=implies, iff=iff, index_of=index_of, order_of=order_of, key_at=key_at,
-                      is_fresh=is_fresh, same_elems=same_elems, same_dict=same_dict, typeof=typeof, same=same, same_obj=same_obj, now=now, was=was, origin=origin, by_lemma=by_lemma, as_list=as_list, is_ndarray=is_ndarray, is_list=is_list,
+NATIVE_HELPERS = dict(pos_in=pos_in, implies=implies, iff=iff, index_of=index_of, order_of=order_of, key_at=key_at,
+                      is_fresh=is_fresh, same_elems=same_elems, same_dict=same_dict, typeof=typeof, same=same, same_obj=same_obj, now=now, was=was, origin=origin, by_lemma=by_lemma, as_list=as_list, is_ndarray=is_ndarray, is_list=is_list, is_str_value=is_str_value, iterable=iterable, items_of=items_of, rec_has=rec_has,
+                      rec_get=rec_get, agg_min=agg_min, agg_max=agg_max, agg_mean=agg_mean, agg_sum=agg_sum,
+                      agg_variance=agg_variance,
                       is_none=is_none)
